@@ -32,6 +32,12 @@ THEOREMS = [
     "C04.single_txn_autocommit_block_commits",
     "C04.shape_preStmt_same",
     "C04.shape_noOuter_same",
+    "C04.run_leaves_no_txn",
+    "C04.round_without_migrations_leaves_txn",
+    "C04.round_failure_eq_standalone",
+    "C04.rounds_independent",
+    "C04.read_noop",
+    "C04.read_noop_per_migration",
     "C04.configure_perMig_own",
     "C04.configure_tddl_own_counterexample",
     "C04.configure_tddl_own_partial",
@@ -62,8 +68,9 @@ TRUSTED = [
     "transaction framing (a transaction left open is rolled back at close); splitting at ';\\n' (harness/online_impl.py:split_script); "
     "without transactional DDL a failure in the on_version_apply hook (after the version statement was emitted) is judged as a failure "
     "before the next migration, because for the script migration k is then complete and recorded",
-    "a body statement that reads the current heads (get_current_heads() mid-migration) is passed to the model as a DDL-kind statement whose "
-    "effect is the identity: in the validated modes that changes neither committed nor working nor the sqlite3 transaction state",
+    "a body statement that reads the current heads (get_current_heads() mid-migration) is passed to the model as the statement Act.read whose "
+    "effect is the identity (C04.read_noop / read_noop_per_migration prove that such statements change no boundary state and no "
+    "post-failure state); its KIND is DDL because a SELECT, like DDL and unlike DML, does not open a transaction in sqlite3's legacy mode",
     "observation: sqlite_master table names, rows of the `data` table and alembic_version rows through a fresh connection "
     "(harness/online_impl.py:observe)",
 ]
@@ -252,9 +259,9 @@ READ = ["ddl", "read", 0]  # the body reads the current heads (MigrationContext.
 
 def to_model_stmt(st):
     if st[1] == "read":
-        # for the model a statement whose effect is the identity (`del` of an object that never exists); DDL kind because
+        # for the model a statement whose effect is the identity (Act.read; C04.read_noop: invisible at every boundary); DDL kind because
         # a SELECT does not open a DBAPI transaction in sqlite3's legacy mode, exactly like DDL (a DML would)
-        return {"k": "ddl", "a": ["del", oi.NOOP_OBJ]}
+        return {"k": "ddl", "a": ["read"]}
     return {"k": st[0], "a": [st[1], st[2]]}
 
 
